@@ -218,6 +218,14 @@ pub fn campaign(ctx: &CheckCtx, subs: &[FuzzSub], runs_per_job: u64, jobs: usize
         return None;
     }
     let t0 = std::time::Instant::now();
+    crate::driver::WATCHDOG_PAUSED.store(true, std::sync::atomic::Ordering::SeqCst);
+    struct Unpause;
+    impl Drop for Unpause {
+        fn drop(&mut self) {
+            crate::driver::WATCHDOG_PAUSED.store(false, std::sync::atomic::Ordering::SeqCst);
+        }
+    }
+    let _unpause = Unpause;
     // 1. build
     let build_log = work.join("build.log");
     let code = run_logged(
